@@ -660,6 +660,38 @@ func engineDepth(rep *Report) {
 					}
 				}
 			}
+			// an explicit (small) RecursionLimit is honoured exactly as by the reference, on the library entry point
+			// and through the generated method with the matching Depth
+			if depths[0] == 100 && ci == 0 {
+				for _, limit := range []int{1, 2, 3, 5, 9} {
+					for _, depth := range []int{0, 1, 2, 3, 4, 5, 6, 8, 9, 10, 11} {
+						in := nestChain(cyc, depth)
+						o := proto.UnmarshalOptions{RecursionLimit: limit}
+						refErr := o.Unmarshal(in, dynamicpb.NewMessage(d))
+						rep.Eval("C06", []byte(fmt.Sprintf("limit|%s|%d|%d", tn, limit, depth)), true)
+						rep.Count("C06", "recursion-limit-probes", 1)
+						for entry := 0; entry < 2; entry++ {
+							m := newOf(s.Zero)
+							var err error
+							pan, pmsg := safely(func() {
+								if entry == 0 {
+									err = o.Unmarshal(in, m)
+								} else {
+									_, err = m.ProtoReflect().ProtoMethods().Unmarshal(protoiface.UnmarshalInput{Message: m.ProtoReflect(), Buf: in, Depth: limit})
+								}
+							})
+							what := []string{"UnmarshalOptions{RecursionLimit}", "ProtoMethods().Unmarshal(Depth)"}[entry]
+							rc := replayCase{Engine: "depth", Type: tn, Seed: *flagSeed, Index: ci, Note: fmt.Sprintf("limit=%d depth=%d entry=%s", limit, depth, what)}
+							switch {
+							case pan:
+								rep.Violate("C06", "total/depth/panic", tn, fmt.Sprintf("%s limit %d, nesting %d: %s", what, limit, depth, pmsg), rc)
+							case (refErr == nil) != (err == nil):
+								rep.Violate("C06", "total/depth/explicit-limit-differs", tn, fmt.Sprintf("%s with limit %d on a value nested %d levels via %s: generated err=%v, reference err=%v", what, limit, depth, strings.Join(names, "/"), err, refErr), rc)
+							}
+						}
+					}
+				}
+			}
 		}
 	}
 	setProgress(-1, -1, 0)
